@@ -1,0 +1,15 @@
+//go:build !verif
+
+// Package verifhook carries the instrumentation points used by the model-based
+// verification harness. Without the `verif` build tag every hook is an empty,
+// inlinable function.
+package verifhook
+
+import "context"
+
+// Enabled reports whether hooks are compiled in.
+const Enabled = false
+
+func Yield(ctx context.Context, point string, kv ...any) {}
+
+func Note(ctx context.Context, point string, kv ...any) {}
